@@ -201,6 +201,23 @@ Proof.
   rewrite Forall_forall in Hv. apply Hv. eapply nth_error_In. eassumption.
 Qed.
 
+(* the fields of a selected object u = data[idx] (read before or after u is written) *)
+Lemma decode_selected_correct v B (HB : B <= 65536) (Hcb : forall n, 0 <= n < B -> v_cigar_bytes v n = 4 * n) names rs idx :
+  Forall (rec_valid B) rs -> Forall (fun i => 0 <= i < len rs) idx ->
+  decode_selected v names (buf_of rs) idx = Some (map (fun r => spec_orec v r names) (select rs idx)).
+Proof.
+  intros Hv Hidx. unfold decode_selected. induction Hidx as [|i idx Hi _ IH]; [reflexivity|].
+  cbn [map all_some]. unfold select in *. cbn [flat_map].
+  destruct (nth_error rs (Z.to_nat i)) as [r|] eqn:E.
+  - destruct (rec_at rs (Z.to_nat i) r [] [] E) as (pre' & post' & Ed & Hs & _).
+    change (len (@nil Z)) with 0 in Hs. cbn [app] in Ed. rewrite app_nil_r in Ed.
+    replace i with (Z.of_nat (Z.to_nat i)) at 1 by lia.
+    unfold buf_of at 1 2. cbn [bf_starts bf_data]. rewrite (py_index_nat _ _ _ Hs). cbn [option_map].
+    rewrite Ed. rewrite (decode_at_correct v B HB Hcb pre' post' r); [|rewrite Forall_forall in Hv; apply Hv; eapply nth_error_In; eassumption].
+    rewrite IH. reflexivity.
+  - apply nth_error_None in E. unfold len in Hi. lia.
+Qed.
+
 (* ================================================================= C. write, then read the written file again *)
 Section Reread.
   Variable v : variant.
@@ -392,7 +409,9 @@ Section Link.
     assert (skipn (length (encode_header text refs)) (encode_file text refs rs) = encode_recs rs) as Hbody.
     { unfold encode_file. rewrite skipn_app, Nat.sub_diag, skipn_all. reflexivity. }
     rewrite Hbody in Hm. change current with repaired in Hm.
-    rewrite !andb_true_iff in Hm. destruct Hm as [[[[M1 M2] M3] M4] M5].
+    rewrite !andb_true_iff in Hm. destruct Hm as [[[[[M1 M2] M3] M6] M4] M5].
+    assert (b = buf_of rs) as Hb
+      by (pose proof (read_file_correct text refs rs Hh Hfits) as Hrf; rewrite Hread in Hrf; injection Hrf as Hrf; exact Hrf).
     apply (all2_eq _ orec_eqb_eq) in M1. apply (all2_eq _ oiv_eqb_eq) in M2.
     unfold spec_ok. fold text refs rs. rewrite Hfile. cbn [andb].
     rewrite <- M1, Hwhole. rewrite <- M2, Hivs. cbn [andb].
@@ -401,7 +420,8 @@ Section Link.
     { destruct (k_ivs2 c) as [l|].
       - apply andb_true_iff in M3. destruct M3 as [_ M3]. apply (all2_eq _ oiv_eqb_eq) in M3. rewrite <- M3. exact Hivs.
       - rewrite (all2_iv_chrom refs rs _ Hivs) in M3. discriminate. }
-    cbn [andb]. apply andb_true_iff. split.
+    cbn [andb]. apply (all2_eq _ orec_eqb_eq) in M6. rewrite <- M6, Hwhole. cbn [andb].
+    apply andb_true_iff. split.
     - (* chunked reads *)
       apply forallb_forall. intros [[k counts] got] Hin.
       rewrite forallb_forall in M4. specialize (M4 _ Hin). cbn beta iota in M4.
@@ -431,11 +451,18 @@ Section Link.
           + destruct (Hk2 E0 E1) as [Hk Hsz]. destruct (Hchunks (w_k w) Hk Hsz) as (bs & Hrun & _ & _ & Hcat).
             rewrite Hrun. exists (encode_header text refs ++ concat (map bf_data bs)).
             split; [reflexivity|]. pose proof (Hall E1) as Hall'. fold rs in Hall'. rewrite Hcat, Hall'. reflexivity. }
-      rewrite Ewb in M5. apply andb_true_iff in M5. destruct M5 as [Ms Mr].
+      rewrite Ewb in M5. apply andb_true_iff in M5. destruct M5 as [M5 Mp]. apply andb_true_iff in M5. destruct M5 as [Ms Mr].
       apply zlist_eqb_eq in Ms. rewrite Ms, Hwb, zlist_eqb_refl. cbn [andb].
       rewrite Hwb in Mr.
       destruct (reread_file repaired 65536 (Z.le_refl _) cb_repaired text refs Hh (select rs (w_idx w))
-                  (good_select _ _ _ _ _ Hg)) as (Hr1 & _ & Hr3 & _).
-      rewrite Hr1 in Mr. apply (all2_eq _ orec_eqb_eq) in Mr. rewrite <- Mr. exact Hr3.
+                  (good_select _ _ _ _ _ Hg)) as (Hr1 & Hr2 & Hr3 & _).
+      rewrite Hr1 in Mr. apply (all2_eq _ orec_eqb_eq) in Mr. rewrite <- Mr, Hr3. cbn [andb].
+      destruct (Z.eqb_spec (w_mode w) 1) as [E1|E1].
+      + rewrite Hb in Mp.
+        rewrite (decode_selected_correct repaired 65536 (Z.le_refl _) cb_repaired (map fst refs) rs (w_idx w)
+                   (good_valid repaired 65536 refs rs Hg) Hidx) in Mp.
+        apply (all2_eq _ orec_eqb_eq) in Mp. rewrite <- Mp, <- Hr2. exact Hr3.
+      + apply (all2_eq _ orec_eqb_eq) in Mp. rewrite <- Mp. pose proof (Hall E1) as Hall'. fold rs in Hall'.
+        rewrite Hall'. exact Hwhole.
   Qed.
 End Link.
